@@ -120,21 +120,30 @@ static void reb_simulation_add_local(struct reb_simulation* const r, struct reb_
 		    ri_trace->current_Ks[i*old_N+j+i] = ri_trace->current_Ks[i*old_N+j];
 		}
 	    }
-	    
-	    // add in new particle, we want it to interact with all currently interacting particles
-	    // exclude star
-	    for (int i = 1; i < ri_trace->encounter_N; i++){
-		ri_trace->current_Ks[ri_trace->encounter_map[i]*r->N+old_N] = 1;
+	    // The new row and column are not covered by the reshuffle (stale or uninitialized memory).
+	    for (unsigned int i = 0; i < r->N; i++){
+		ri_trace->current_Ks[i*r->N+old_N] = 0;
+		ri_trace->current_Ks[old_N*r->N+i] = 0;
 	    }
 	    
-	    ri_trace->encounter_map[ri_trace->encounter_N] = old_N;
-	    ri_trace->encounter_N++;
+	    if (r->ri_trace.mode==1){
+	        // Only during the Kepler step is encounter_map a list of particle indices (in REB_TRACE_MODE_FULL
+	        // it still is the flag array of the pre-timestep check and encounter_N is not a particle count).
+	        // add in new particle, we want it to interact with all currently interacting particles
+	        // exclude star
+	        for (unsigned int i = 1; i < ri_trace->encounter_N; i++){
+		    ri_trace->current_Ks[ri_trace->encounter_map[i]*r->N+old_N] = 1;
+	        }
+	    
+	        ri_trace->encounter_map[ri_trace->encounter_N] = old_N;
+	        ri_trace->encounter_N++;
             
-	    if (r->N_active==-1){ 
-                // If global N_active is not set, then all particles are active, so the new one as well.
-                // Otherwise, assume we're adding non active particle. 
-                ri_trace->encounter_N_active++;
-            }
+	        if (r->N_active==-1){ 
+                    // If global N_active is not set, then all particles are active, so the new one as well.
+                    // Otherwise, assume we're adding non active particle. 
+                    ri_trace->encounter_N_active++;
+                }
+	    }
 	    
         }
     }
@@ -386,9 +395,13 @@ int reb_simulation_remove_particle(struct reb_simulation* const r, int index, in
         reb_integrator_bs_reset(r);
         if (r->ri_trace.mode==1 || r->ri_trace.mode==3){
 	    // Only removed mid-timestep if collision - BS Step!
+            // Only during the Kepler step is encounter_map a list of particle indices. In REB_TRACE_MODE_FULL it
+            // still is the flag array of the pre-timestep check with encounter_N==1: decrementing the unsigned
+            // encounter_N for every removed particle wrapped it around and the loop below left the array.
+            const int map_is_index_list = (r->ri_trace.mode==1);
             int after_to_be_removed_particle = 0;
             int encounter_index = -1;
-            for (int i=0;i<ri_trace->encounter_N;i++){
+            for (unsigned int i=0;map_is_index_list && i<ri_trace->encounter_N;i++){
                 if (after_to_be_removed_particle == 1){
                     ri_trace->encounter_map[i-1] = ri_trace->encounter_map[i] - 1;
                 }
@@ -410,10 +423,14 @@ int reb_simulation_remove_particle(struct reb_simulation* const r, int index, in
 	            ri_trace->current_Ks[i*new_N+j] = ri_trace->current_Ks[oi*old_N+oj];
 	        }
 	    }
-            if (encounter_index<ri_trace->encounter_N_active){
-                ri_trace->encounter_N_active--;
+            if (map_is_index_list){
+                if (encounter_index>=0 && (unsigned int)encounter_index<ri_trace->encounter_N_active){
+                    ri_trace->encounter_N_active--;
+                }
+                if (encounter_index>=0){
+                    ri_trace->encounter_N--;
+                }
             }
-            ri_trace->encounter_N--;
         }
     }
 
